@@ -1282,6 +1282,10 @@ impl<'a> Run<'a> {
                     );
                 }
             }
+            if w.z_drops != w.z_created {
+                let (c, d) = (w.z_created, w.z_drops);
+                w.violate("C06", if d < c { "zero-sized-child-leaked" } else { "zero-sized-child-dropped-twice" }, format!("{} zero-sized futures were given to the crate, {} drops of them were observed by the end of the run", c, d));
+            }
             if self.cfg.kind.is_adapter() && w.up.dropped != 1 {
                 let d = w.up.dropped;
                 w.violate("C06", "upstream-drop-count", format!("the upstream stream was dropped {} times", d));
@@ -1527,7 +1531,7 @@ impl<'a> Run<'a> {
         let pre: Vec<u32> = cfg.prefill.iter().map(|s| self.new_child(s)).collect();
         let by_ctor = matches!(
             cfg.kind,
-            Kind::FubIter(_) | Kind::FuIter(_) | Kind::FobIter(_) | Kind::FoIter(_) | Kind::Mb(_) | Kind::Mu(_) | Kind::Ja(_) | Kind::Tja(_) | Kind::JaP(_) | Kind::TjaP(_) | Kind::JaN(_) | Kind::TjaN(_)
+            Kind::FubIter(_) | Kind::FuIter(_) | Kind::FobIter(_) | Kind::FoIter(_) | Kind::Mb(_) | Kind::Mu(_) | Kind::MuIter(_) | Kind::Ja(_) | Kind::Tja(_) | Kind::JaP(_) | Kind::TjaP(_) | Kind::JaN(_) | Kind::TjaN(_) | Kind::JaZ(_)
         );
         let subj = build(cfg.kind, if by_ctor { &pre } else { &[] });
         match subj {
@@ -1553,7 +1557,7 @@ impl<'a> Run<'a> {
                 self.model.push_back(id);
             }
         }
-        if !matches!(cfg.kind, Kind::Mu(_) | Kind::FuNew | Kind::FuCap(_) | Kind::FuIter(_) | Kind::FoNew | Kind::FoCap(_) | Kind::FoIter(_)) {
+        if !matches!(cfg.kind, Kind::Mu(_) | Kind::MuIter(_) | Kind::FuNew | Kind::FuCap(_) | Kind::FuIter(_) | Kind::FoNew | Kind::FoCap(_) | Kind::FoIter(_)) {
             reset_crate_allocs();
         }
         true
